@@ -32,6 +32,7 @@ RULE = (
     "nothing, outer handles keep working; the same exception leaves the block. Non-trivial: >=2 tool applications "
     "or a nested scope, and the exit point was reached; distinct = distinct (program, exit point)."
     " Extensions of rounds 9-12: tools advanced up to 10 steps, tools handing out further iterators drawn more often; aggregations over the handle; callables failing with a TypeError at one of their first calls (tools; min/max/reduce); merge with a key."
+    " Round 13: merge in reverse direction; rarely a long stream with a selection of 1024+ items failing at an unorderable item."
 )
 COMPONENTS = COMPONENTS_BASE
 ASSUMPTIONS = [
